@@ -12,7 +12,7 @@ WF = lambda h, G: [('wf.' + nm, f) for nm, f in wf_graph(h, G)]
 def unchanged_lists_by_field(o: H, h: H, fields):
     """every list owned through a field NOT in `fields` keeps its content (ownership-based frame)"""
     l = A('l!uf')
-    cond = z3.And(l >= 0, l < o.alloc, *[o.own_fld(l) != field_id(f) for f in fields])
+    cond = z3.And(l >= 0, l < o.alloc, z3.Or(o.own_obj(l) == -1, z3.And(*[o.own_fld(l) != field_id(f) for f in fields])))
     return z3.And(
         FA([l], z3.Implies(cond, h.bagof(l) == o.bagof(l)), [h.bagof(l)]),
         FA([l], z3.Implies(cond, h.len(l) == o.len(l)), [h.len(l)]),
@@ -290,7 +290,20 @@ def install_add_attacker(reg):
             ('entry', FA([n], z3.Implies(is_node(o, G, n), (entry(h, a, n) > 0) == image(o, G, c.entry_points, n)), [entry(h, a, n)])),
             ('agree', FA([n], z3.Implies(is_node(o, G, n), reached(h, a, n) == cb(h, n, a)), [reached(h, a, n)])),
             ('lookup', z3.And(h.has(h.f('_id_to_attacker', G), k), h.val(h.f('_id_to_attacker', G), k) == VRef(a))),
+            ('appended-last', z3.And(h.len(AL) == o.len(AL) + 1, h.at(AL, o.len(AL)) == VRef(a),
+                                     FA([z3.Int('j!al')], z3.Implies(z3.And(0 <= z3.Int('j!al'), z3.Int('j!al') < o.len(AL)),
+                                                                     h.at(AL, z3.Int('j!al')) == o.at(AL, z3.Int('j!al'))), [h.at(AL, z3.Int('j!al'))]))),
             ('nodes-untouched', list_unchanged(o, h, nodes_l(o, G))),
+            ('same-list-objects', z3.And(h.f('nodes', G) == o.f('nodes', G), h.f('attackers', G) == o.f('attackers', G))),
+            ('frame.other-attackers', FA([b], z3.Implies(z3.And(is_att(o, G, b)), z3.And(
+                list_unchanged(o, h, o.f('reached_attack_steps', b)), list_unchanged(o, h, o.f('entry_points', b)),
+                h.f('reached_attack_steps', b) == o.f('reached_attack_steps', b), h.f('entry_points', b) == o.f('entry_points', b))),
+                                         [h.f('reached_attack_steps', b)])),
+            ('frame.unrelated-lists', unchanged_lists_by_field(o, h, ('reached_attack_steps', 'compromised_by', 'attackers', 'entry_points'))),
+            ('frame.own', FA([A('l!fo2')], z3.Implies(z3.And(A('l!fo2') >= 0, A('l!fo2') < o.alloc),
+                                                      z3.And(h.own_obj(A('l!fo2')) == o.own_obj(A('l!fo2')), h.own_fld(A('l!fo2')) == o.own_fld(A('l!fo2')),
+                                                             h.cls(A('l!fo2')) == o.cls(A('l!fo2')))), [h.own_obj(A('l!fo2'))])),
+            ('name-kept', h.f('name', a) == o.f('name', a)),
             ('frame.other-compromisers', FA([n, b], z3.Implies(z3.And(is_node(o, G, n), b != a), cb(h, n, b) == cb(o, n, b)), [cb(h, n, b)])),
         ]
 
@@ -441,7 +454,13 @@ def install_remove_node(reg):
             ('name-index', FA([k], h.has(F1, k) == z3.And(o.has(F0, k), k != VStr(full_name(o, x))), [h.has(F1, k)])),
             ('attackers-forget-it', FA([a], z3.Implies(is_att(h, G, a), z3.And(reached(h, a, x) == 0, entry(h, a, x) == 0)), [reached(h, a, x)])),
             ('attackers-keep-the-rest', FA([a, m], z3.Implies(z3.And(is_att(h, G, a), m != x, is_node(o, G, m)),
-                                                              z3.And(reached(h, a, m) == reached(o, a, m), entry(h, a, m) == entry(o, a, m))), [reached(h, a, m)])),
+                                                              z3.And(reached(h, a, m) == reached(o, a, m), entry(h, a, m) == entry(o, a, m))),
+                                           [reached(h, a, m), entry(h, a, m)])),
+            ('frame.unrelated-lists', unchanged_lists_by_field(o, h, ('parents', 'children', 'reached_attack_steps', 'compromised_by', 'nodes'))),
+            ('frame.own', FA([A('l!fo')], z3.Implies(z3.And(A('l!fo') >= 0, A('l!fo') < o.alloc),
+                                                     z3.And(h.own_obj(A('l!fo')) == o.own_obj(A('l!fo')), h.own_fld(A('l!fo')) == o.own_fld(A('l!fo')),
+                                                            h.cls(A('l!fo')) == o.cls(A('l!fo')))), [h.own_obj(A('l!fo'))])),
+            ('same-list-objects', z3.And(h.f('nodes', G) == o.f('nodes', G), h.f('attackers', G) == o.f('attackers', G))),
             ('attackers-list', list_unchanged(o, h, atts_l(o, G))),
         ]
 
@@ -457,3 +476,172 @@ _install_prev2 = install
 def install(reg: Registry):
     _install_prev2(reg)
     install_remove_node(reg)
+
+
+# ---------------------------------------------------------------------------------------------------
+def install_attach_attackers(reg):
+    SEP = str_const(':')
+
+    def step_name(h, t, s):
+        """asset.name + ':' + step for entry-point tuple t and step value s"""
+        return concat(concat(h.f('name', h.f('t0', t)), SEP), v_s(s))
+
+    def hit(h, G, t, s, n):
+        F_ = h.f('_full_name_to_node', G)
+        k = VStr(step_name(h, t, s))
+        return z3.And(h.has(F_, k), h.val(F_, k) == VRef(n))
+
+    def named_by_tuple(h, G, t, n, steps_bag=None):
+        s = z3.Const('s!nt', Val)
+        inb = (z3.Select(steps_bag, s) > 0) if steps_bag is not None else (h.bag(h.f('t1', t), s) > 0)
+        return z3.Exists([s], z3.And(inb, is_VStr(s), hit(h, G, t, s, n)))
+
+    def named(h, G, I, n, tuples_bag=None):
+        """node n is named by some (asset, step) entry point of model attacker I (restricted to the given bag of tuples)"""
+        t = A('t!nm')
+        inb = (z3.Select(tuples_bag, VRef(t)) > 0) if tuples_bag is not None else (h.cnt(h.f('entry_points', I), t) > 0)
+        return z3.Exists([t], z3.And(inb, named_by_tuple(h, G, t, n)))
+
+    def model_of(c):
+        return v_a(c.old.f('model', c.self))
+
+    def requires(c):
+        o, G = c.old, c.self
+        I = A('I!rq')
+        M = model_of(c)
+        return WF(o, G) + [
+            ('model-lists-separate', z3.Implies(is_VRef(o.f('model', G)), z3.And(
+                o.own_obj(o.f('attackers', M)) == M, o.own_fld(o.f('attackers', M)) == field_id('attackers'), M != G,
+                FA([I], z3.Implies(o.cnt(o.f('attackers', M), I) > 0, z3.And(
+                    o.own_obj(o.f('entry_points', I)) == I, o.own_fld(o.f('entry_points', I)) == field_id('entry_points'),
+                    o.cls(I) == class_id('AttackerAttachment'), z3.Not(is_att(o, G, I)))), [o.cnt(o.f('attackers', M), I)])))),
+        ]
+
+    def others_kept(o, h, G):
+        b, n = A('b!ok'), A('n!ok')
+        return [
+            ('old-attackers-kept', FA([b], z3.Implies(is_att(o, G, b), z3.And(
+                is_att(h, G, b), list_unchanged(o, h, o.f('reached_attack_steps', b)), list_unchanged(o, h, o.f('entry_points', b)),
+                h.f('reached_attack_steps', b) == o.f('reached_attack_steps', b), h.f('entry_points', b) == o.f('entry_points', b))),
+                                      [o.cnt(atts_l(o, G), b)])),
+            ('old-compromisers-kept', FA([n, b], z3.Implies(z3.And(is_node(o, G, n), is_att(o, G, b)), cb(h, n, b) == cb(o, n, b)), [cb(h, n, b)])),
+            ('nodes-kept', z3.And(list_unchanged(o, h, nodes_l(o, G)), h.f('nodes', G) == o.f('nodes', G), h.f('attackers', G) == o.f('attackers', G))),
+            ('node-index-kept', z3.And(h.f('_full_name_to_node', G) == o.f('_full_name_to_node', G), h.f('_id_to_node', G) == o.f('_id_to_node', G),
+                                       *[z3.Select(h.arr[x], o.f('_full_name_to_node', G)) == z3.Select(o.arr[x], o.f('_full_name_to_node', G)) for x in DICT_ARRAYS],
+                                       *[z3.Select(h.arr[x], o.f('_id_to_node', G)) == z3.Select(o.arr[x], o.f('_id_to_node', G)) for x in DICT_ARRAYS])),
+            ('model-kept', unchanged_lists_by_field(o, h, ('reached_attack_steps', 'compromised_by', 'attackers', 'entry_points'))),
+            ('model-attackers-kept', z3.And(list_unchanged(o, h, o.f('attackers', model_of_h(o, G))),
+                                            h.f('model', G) == o.f('model', G), h.f('attackers', model_of_h(o, G)) == o.f('attackers', model_of_h(o, G)))),
+            ('names-kept', z3.And(h.arr['f_name'] == o.arr['f_name'], h.arr['f_asset'] == o.arr['f_asset'], h.arr['f_t0'] == o.arr['f_t0'],
+                                  h.arr['f_t1'] == o.arr['f_t1'])),
+        ]
+
+    def model_of_h(o, G):
+        return v_a(o.f('model', G))
+
+    def attached(o, h, G, j):
+        """the j-th model attacker has its graph attacker at position len0 + j, with the specified reached / entry sets"""
+        M = model_of_h(o, G)
+        I = v_a(o.at(o.f('attackers', M), j))
+        a = v_a(h.at(atts_l(o, G), o.len(atts_l(o, G)) + j))
+        n = A('n!at')
+        return z3.And(
+            is_VRef(h.at(atts_l(o, G), o.len(atts_l(o, G)) + j)), is_att(h, G, a), z3.Not(is_att(o, G, a)),
+            h.f('name', a) == o.f('name', I),
+            FA([n], z3.Implies(is_node(o, G, n), (reached(h, a, n) > 0) == named(o, G, I, n)), [reached(h, a, n)]),
+            FA([n], z3.Implies(is_node(o, G, n), entry(h, a, n) == reached(h, a, n)), [entry(h, a, n)]))
+
+    def inv0(c: LCtx):
+        o, h, G = c.old, c.h, c.self
+        j = z3.Int('j!i0')
+        AL = atts_l(o, G)
+        return WF(h, G) + others_kept(o, h, G) + [
+            ('count', h.len(AL) == o.len(AL) + c.i),
+            ('prefix-kept', FA([j], z3.Implies(z3.And(0 <= j, j < o.len(AL)), h.at(AL, j) == o.at(AL, j)), [h.at(AL, j)])),
+            ('attached', FA([j], z3.Implies(z3.And(0 <= j, j < c.i), attached(o, h, G, j)), [h.at(AL, o.len(AL) + j)])),
+            ('model-own', requires(c)[-1][1]),
+        ]
+
+    def cur_attacker(c):
+        return c.local('attacker').t
+
+    def inner_common(c: LCtx, top: LCtx):
+        """facts about the attacker being attached, shared by the two inner loops (top = outer-most loop context)"""
+        o, h, G = c.old, c.h, c.self
+        a = cur_attacker(c)
+        b, n, j = A('b!ic'), A('n!ic'), z3.Int('j!ic')
+        AL = atts_l(o, G)
+        hb = top.h       # heap at the head of the current outer iteration
+        return WF(h, G) + others_kept(o, h, G) + [
+            ('attacker-in-G', z3.And(is_att(h, G, a), z3.Not(is_att(o, G, a)), h.at(AL, o.len(AL) + top.i) == VRef(a), h.len(AL) == o.len(AL) + top.i + 1)),
+            ('attacker-name', h.f('name', a) == o.f('name', c.local('attacker_info').t)),
+            ('prefix-kept', FA([j], z3.Implies(z3.And(0 <= j, j < o.len(AL) + top.i), h.at(AL, j) == hb.at(AL, j)), [h.at(AL, j)])),
+            ('earlier-attackers-kept', FA([b], z3.Implies(z3.And(is_att(hb, G, b)), z3.And(
+                list_unchanged(hb, h, hb.f('reached_attack_steps', b)), list_unchanged(hb, h, hb.f('entry_points', b)), b != a,
+                h.f('reached_attack_steps', b) == hb.f('reached_attack_steps', b), h.f('entry_points', b) == hb.f('entry_points', b))),
+                                          [hb.cnt(AL, b)])),
+            ('entry-still-empty', h.bagof(h.f('entry_points', a)) == EMPTY_BAG),
+        ]
+
+    def inv1(c: LCtx):
+        o, h, G = c.old, c.h, c.self
+        a = cur_attacker(c)
+        n = A('n!i1')
+        I = c.local('attacker_info').t
+        return inner_common(c, c.outer) + [
+            ('reached', FA([n], z3.Implies(is_node(o, G, n), (reached(h, a, n) > 0) == named(o, G, I, n, tuples_bag=c.done)), [reached(h, a, n)])),
+            ('iterating-entry-points-of-info', c.it == o.f('entry_points', I)),
+        ]
+
+    def inv2(c: LCtx):
+        o, h, G = c.old, c.h, c.self
+        a = cur_attacker(c)
+        n = A('n!i2')
+        I = c.local('attacker_info').t
+        o1 = c.outer            # loop over the tuples
+        # the current tuple is the owner of the step list being iterated (t1 list): address it through ownership-free equality
+        t = A('t!i2')
+        cur_t = z3.Const('curt!i2', Addr)
+        return inner_common(c, o1.outer) + [
+            ('reached', FA([n], z3.Implies(is_node(o, G, n), (reached(h, a, n) > 0) == z3.Or(
+                named(o, G, I, n, tuples_bag=o1.done),
+                z3.Exists([t], z3.And(o.f('t1', t) == c.it, o.f('t0', t) == c.local('asset').t, named_by_tuple(o, G, t, n, steps_bag=c.done))))),
+                           [reached(h, a, n)])),
+            ('iterating-entry-points-of-info', o1.it == o.f('entry_points', I)),
+        ]
+
+    def ensures(c):
+        o, h, G = c.old, c.h, c.self
+        M = model_of_h(o, G)
+        j = z3.Int('j!ea2')
+        AL = atts_l(o, G)
+        return WF(h, G) + others_kept(o, h, G) + [
+            ('one-attacker-per-model-attacker', h.len(AL) == o.len(AL) + o.len(o.f('attackers', M))),
+            ('attached', FA([j], z3.Implies(z3.And(0 <= j, j < o.len(o.f('attackers', M))), attached(o, h, G, j)), [h.at(AL, o.len(AL) + j)])),
+        ]
+
+    def raise_cond(c):
+        o, G = c.old, c.self
+        I = A('I!rc')
+        M = model_of_h(o, G)
+        return z3.Or(is_VNone(o.f('model', G)),
+                     z3.Exists([I], z3.And(o.cnt(o.f('attackers', M), I) > 0, o.f('name', I) == str_const(''))))
+
+    def exc_ens(c):
+        return WF(c.h, c.self)
+
+    reg.add(Contract(MG + ':AttackGraph.attach_attackers', {'self': Obj(GRAPH)}, requires=requires, ensures=ensures,
+                     raises={'AttackGraphException': (raise_cond, exc_ens)},
+                     modifies=LIST_ARRAYS + DICT_ARRAYS + ('cls', 'own_obj', 'own_fld', 'f_id', 'f_next_attacker_id', 'f_name',
+                                                            'f_entry_points', 'f_reached_attack_steps'), allocates=True,
+                     loops={0: LoopSpec(inv0), 1: LoopSpec(inv1), 2: LoopSpec(inv2)}, props=('C11', 'C09')))
+
+
+_install_prev3 = install
+
+
+def install(reg: Registry):
+    _install_prev3(reg)
+    import os
+    if os.environ.get('PYVC_WIP'):          # work in progress: 549/577 obligations discharge; not registered until complete
+        install_attach_attackers(reg)
